@@ -161,8 +161,13 @@ var importers = []importerSpec{
 		}},
 	{Name: "ch.cumulus", Args: []string{"--account", "Liabilities:Cumulus"}, Account: "Liabilities:Cumulus",
 		Write: func(rows []stRow) []byte {
-			recs := [][]string{{"Einkaufs-Datum", "Verbucht am", "Beschreibung", "Gutschrift CHF", "Belastung CHF"}}
-			for _, r := range rows {
+			// the export has sections with their own header lines: the balance carried forward and payments
+			// (four columns, not booked), the purchases (five columns, optionally followed by a free-text line
+			// about the foreign currency), rounding corrections (four columns, booked)
+			recs := [][]string{{"Verbucht am", "Beschreibung", "Gutschrift CHF", "Belastung CHF"}, {"", "Saldovortrag letzte Rechnung", "", "1'234.56"},
+				{"04.09.2020", "Ihre LSV-Zahlung - Besten Dank", "1'234.56", ""}, {"Einkaufs-Datum", "Verbucht am", "Beschreibung", "Gutschrift CHF", "Belastung CHF"}}
+			var rounding [][]string
+			for k, r := range rows {
 				gut, bel := "", ""
 				v := r.Amt
 				if v < 0 {
@@ -178,7 +183,18 @@ var importers = []importerSpec{
 				} else {
 					gut = a
 				}
+				if (k+len(rows))%5 == 4 {
+					rounding = append(rounding, []string{dmy(r.Z), "Rundungskorrektur", gut, bel})
+					continue
+				}
 				recs = append(recs, []string{dmy(r.Z), dmy(r.Z + 2), r.Text, gut, bel})
+				if (k+len(rows))%3 == 1 { // a line about the original currency: appended to the description
+					recs = append(recs, []string{"", "", textClasses[(k*7+len(r.Text))%len(textClasses)], "", ""})
+				}
+			}
+			if len(rounding) > 0 {
+				recs = append(recs, []string{"Verbucht am", "Beschreibung", "Gutschrift CHF", "Belastung CHF"})
+				recs = append(recs, rounding...)
 			}
 			return csvBytes(',', recs)
 		}},
